@@ -31,6 +31,7 @@ import (
 	"math"
 	"math/rand"
 	"os"
+	"regexp/syntax"
 	"sort"
 	"strconv"
 	"unicode"
@@ -228,9 +229,29 @@ func flagString(bits int) string {
 	return s
 }
 
-// regexAccepted asks the real constructor whether pattern compiles under the flags.
+// regexAccepted: does regexp/syntax accept the pattern under the documented translation of the
+// flags (i -> FoldCase; q -> Literal, the other flags ignored; x without q is unimplemented;
+// m -> not OneLine; s -> DotNL)? Computed here, not through ast.NewRegex: the library's own
+// validation is part of what C04 checks ("every accepted like_regex compiles at execution time").
 func regexAccepted(pattern string, bits int) bool {
-	_, err := ast.NewRegex(ast.NewConst(ast.ConstRoot), pattern, flagString(bits))
+	fl := syntax.OneLine | syntax.ClassNL | syntax.PerlX
+	if bits&1 != 0 {
+		fl |= syntax.FoldCase
+	}
+	if bits&16 != 0 {
+		fl |= syntax.Literal
+	} else {
+		if bits&8 != 0 {
+			return false
+		}
+		if bits&4 != 0 {
+			fl &^= syntax.OneLine
+		}
+		if bits&2 != 0 {
+			fl |= syntax.DotNL
+		}
+	}
+	_, err := syntax.Parse(pattern, fl)
 	return err == nil
 }
 
